@@ -292,6 +292,17 @@ fn yes_no(_: &mut ZooA) {
     rec("yes_no()".into());
 }
 
+/// Captures are handed over as captured, surrounding whitespace included.
+#[given(regex = r"^pad:(.*)$")]
+fn pad(_: &mut ZooA, s: String) {
+    rec(format!("pad[{s}]"));
+}
+
+#[when(regex = r"^padnum:(.*)$")]
+fn padnum(_: &mut ZooA, n: u32) {
+    rec(format!("padnum({n})"));
+}
+
 // ---- ZooB ----------------------------------------------------------------
 
 #[given("a literal step")]
@@ -578,6 +589,16 @@ pub fn entries() -> Vec<Entry> {
                 .then(|| Expect::Call(format!("prefixed_slice({id}|{name})")))
         }),
         e(0, Given, "yes_no", |t| (t.starts_with("yes") || t.ends_with("no")).then(|| Expect::Call("yes_no()".into()))),
+        e(0, Given, "pad", |t| t.strip_prefix("pad:").map(|s| Expect::Call(format!("pad[{s}]")))),
+        e(0, When, "padnum", |t| {
+            t.strip_prefix("padnum:").map(|s| {
+                if fits::<u32>(s) {
+                    Expect::Call(format!("padnum({})", s.parse::<u32>().unwrap()))
+                } else {
+                    Expect::Fail(None)
+                }
+            })
+        }),
         e(1, Given, "b_lit", |t| (t == "a literal step").then(|| Expect::Call("b_lit(7)".into()))),
         e(1, When, "b_re", |t| {
             let n = t.strip_prefix("b ")?;
@@ -632,6 +653,7 @@ pub fn texts(max_tokens: usize) -> Vec<String> {
         "parse 12", "parse 300", "parse x", "parse -1", "multi lit", "multi re", "multi expr", "multi", "multi lit ",
         "user 7 bob at 3,4", "user 7 bob at 300,4", "user x bob at 3,4", "users 7 bob", "users  bob", "users 7",
         "yes", "no", "yes please", "I say no", "nope", "maybe",
+        "pad:x", "pad: x ", "pad:", "padnum:5", "padnum: 5", "padnum:5 ", "padnum:x",
         "stamped a", "stamped b", "stamped c", "stamped d", "ctxdoc w1", "ctxdoc two words", "twice 2", "twice x", "same literal", "same  literal",
         "abc named group", "two words named group", "éa named group", "zoë named group",
         "café 12 crêpes for Chloé", "café 7 crêpes for é", "café 7 crêpes for Zoëé", "cafe 12 crêpes for Chloé",
@@ -818,7 +840,7 @@ pub fn run(a: &ShardArgs) -> serde_json::Value {
         "property": "C19", "tier": a.tier,
         "total_configs": txts.len() * 6, "configs_done": counters.0, "configs_skipped_budget": 0,
         "evaluations": counters.0 + reg, "distinct_nontrivial": counters.1,
-        "rule": format!("a zoo of {} attribute instances on 36 functions for 2 Worlds (sync/async, unit/Result, typed args, slice, #[step] / `step` argument, literal / regex = / expr =, custom Parameter with one and several groups, several attributes on one fn, named group) x every text of <= {} tokens over a 12-token alphabet plus positive / near-miss texts of every entry (prefix, suffix, padding, case) x 3 keywords; non-trivial = lookups that dispatch to a function", es.len(), if a.thorough {5} else {3}),
+        "rule": format!("a zoo of {} attribute instances on 38 functions for 2 Worlds (sync/async, unit/Result, typed args, slice, #[step] / `step` argument, literal / regex = / expr =, custom Parameter with one and several groups, several attributes on one fn, named group) x every text of <= {} tokens over a 12-token alphabet plus positive / near-miss texts of every entry (prefix, suffix, padding, case) x 3 keywords; non-trivial = lookups that dispatch to a function", es.len(), if a.thorough {5} else {3}),
         "exhaustive": true,
         "violations": violations, "samples": samples,
     })
